@@ -473,20 +473,38 @@ def setup():
         enames = sorted({e["name"] for s in registry.PROPS.values() for e in s["engines"]})
         drivers = sorted({e["driver"] for s in registry.PROPS.values() for e in s["engines"] if e.get("driver")})
         fgroups = sorted({g for s in registry.PROPS.values() for g in s.get("facts", [])})
+        # setup only warms the build caches: every check rebuilds what it needs from /repo's working tree
+        # and reports what does not build as a violation of ITS property, so a failure here (e.g. a
+        # proof obligation broken by a change to /repo) must not stop the other properties' checks.
+        warn = []
         ok, out = build_harness(log, enames, fgroups)
         if not ok:
-            print(out)
-            return 1
-        ok, out, _ = run_vfacts(log, fgroups)
-        if not ok:
-            print(out)
-            return 1
+            # one engine that does not compile must not keep the others from being built
+            for e in enames:
+                ok1, out1 = build_harness(log, [e], [])
+                if not ok1:
+                    warn.append(f"engine vh-{e} does not build: {out1[-400:]}")
+            for g in fgroups:
+                ok1, out1 = build_harness(log, [], [g])
+                if not ok1:
+                    warn.append(f"fact extractor vf-{g} does not build: {out1[-400:]}")
+        for g in fgroups:
+            if os.path.exists(os.path.join(BINDIR, "vf-" + g)):
+                ok1, out1, _ = run_vfacts(log, [g])
+                if not ok1:
+                    warn.append(f"vf-{g} failed: {out1[-400:]}")
         targets = [f"DiskfsModel.Props.{p}" for p in sorted(registry.PROPS)] + ["DiskfsModel.Audit.Common"] + drivers
         ok, out = lake_build(targets, log, timeout=6000)
         if not ok:
-            print(out[-5000:])
-            return 1
-    print("setup ok")
+            # build the rest target by target so that one broken module leaves the others compiled
+            for t in targets:
+                ok1, out1 = lake_build([t], log, timeout=3000)
+                if not ok1:
+                    errs = [l for l in out1.splitlines() if "error" in l.lower()][:3]
+                    warn.append(f"lake build {t} failed: {' | '.join(errs)[:600]}")
+    for w in warn:
+        print("setup warning (the property's own check will report it):", w)
+    print("setup ok" if not warn else f"setup finished with {len(warn)} warning(s)")
     return 0
 
 
